@@ -32,9 +32,10 @@ type Config struct {
 
 // pathEnd is thrown (as a Go panic) to finish the current path.
 type pathEnd struct {
-	kind string // "panic", "prune", "unsupported", "unwind", "steps", "exit"
-	msg  string
-	pos  string
+	kind  string // "panic", "prune", "unsupported", "unwind", "steps", "exit"
+	msg   string
+	pos   string
+	stack []string
 }
 
 func (p pathEnd) Error() string { return p.kind + ": " + p.msg + " @" + p.pos }
@@ -68,6 +69,7 @@ type Violation struct {
 	Msg     string
 	Pos     string
 	Model   map[string][]uint64
+	Alt     []map[string][]uint64 // further models of the same violation (diversified inputs)
 	Stack   []string
 }
 
@@ -105,6 +107,7 @@ type HarnessResult struct {
 	TagDischarged int
 	Stubs         map[string]int
 	Cuts          map[string]int
+	SolverRestarts int
 	Summaries     map[string]int
 	InputNames    map[string]int // nondet variable name -> width (0 = bool), over all paths
 }
@@ -151,6 +154,7 @@ type Engine struct {
 	summaries map[string]Value           // function-name suffix -> replacement closure (per path)
 	sumCache  map[*ssa.Function]Value
 	inSummary bool
+	restarts  int
 	pendingCuts map[string]cutSpec
 	cuts        map[string]*cutState
 	cutCache    map[*ssa.Function]map[token.Pos]string
@@ -231,7 +235,11 @@ func (e *Engine) stackStrings() []string {
 }
 
 func (e *Engine) end(kind, format string, a ...any) {
-	panic(pathEnd{kind: kind, msg: fmt.Sprintf(format, a...), pos: e.curPos()})
+	pe := pathEnd{kind: kind, msg: fmt.Sprintf(format, a...), pos: e.curPos()}
+	if kind != "prune" {
+		pe.stack = e.stackStrings()
+	}
+	panic(pe)
 }
 
 func (e *Engine) unsupported(format string, a ...any) { e.end("unsupported", format, a...) }
@@ -266,6 +274,30 @@ func (e *Engine) replaying() bool { return e.pos < len(e.trace) }
 
 func (e *Engine) concreteMode() bool { return e.cfg.Concrete != nil }
 
+// reviveSolver restarts a crashed solver process and re-asserts the path condition.
+func (e *Engine) reviveSolver() {
+	if e.solver == nil || !e.solver.dead || e.restarts >= 25 {
+		return
+	}
+	e.restarts++
+	old := e.solver
+	e.res.Queries += old.Queries
+	e.res.SolverTime += old.Time
+	old.Close()
+	s, err := NewSolver(e.cfg.Solver, e.ts, e.cfg.QueryTimeout)
+	if err != nil {
+		return
+	}
+	e.solver = s
+	e.solverPC = e.solverPC[:0]
+	for _, t := range e.pc {
+		s.Push()
+		s.Assert(t)
+		e.solverPC = append(e.solverPC, t.ID)
+	}
+	e.res.SolverRestarts++
+}
+
 // feasible reports whether pc ∧ c may be satisfiable (Unknown counts as feasible).
 func (e *Engine) feasible(c *Term) Result {
 	if c.Op == OpTrue {
@@ -275,7 +307,22 @@ func (e *Engine) feasible(c *Term) Result {
 		return Unsat
 	}
 	e.solver.SetTimeout(e.cfg.QueryTimeout)
-	return e.solver.CheckWith(c)
+	r := e.solver.CheckWith(c)
+	if e.solver.dead {
+		e.reviveSolver()
+		r = Unknown
+	}
+	return r
+}
+
+// checkModel wraps Solver.CheckWithModel with crash recovery.
+func (e *Engine) checkModel(vars []*Term, extra ...*Term) (Result, map[string]uint64) {
+	r, m := e.solver.CheckWithModel(vars, extra...)
+	if e.solver.dead {
+		e.reviveSolver()
+		return Unknown, nil
+	}
+	return r, m
 }
 
 // decideBool resolves a branch condition, forking the path when both outcomes are feasible.
@@ -360,7 +407,7 @@ func (e *Engine) concretize(t *Term) uint64 {
 		e.unsupported("symbolic value in concrete mode: %s", t)
 	}
 	e.solver.SetTimeout(e.cfg.QueryTimeout)
-	r, m := e.solver.CheckWithModel([]*Term{t})
+	r, m := e.checkModel([]*Term{t})
 	if r != Sat {
 		e.end("inconclusive", "concretize: solver said %v", r)
 	}
@@ -436,7 +483,7 @@ func (e *Engine) backtrack() bool {
 				ex = append(ex, e.ts.BNot(e.ts.Eq(d.term, e.ts.Const(d.term.W, v))))
 			}
 			e.solver.SetTimeout(e.cfg.QueryTimeout)
-			r, m := e.solver.CheckWithModel([]*Term{d.term}, ex...)
+			r, m := e.checkModel([]*Term{d.term}, ex...)
 			if r == Sat {
 				v := m[termKeyName(d.term)]
 				d.choice = v
@@ -492,6 +539,98 @@ func (e *Engine) modelToAssignment(m map[string]uint64) map[string][]uint64 {
 	return out
 }
 
+// diversify looks for a second model of pc ∧ nc in which as many input variables as
+// possible take pseudo-random values. Uninterpreted functions hide special values of the
+// real primitives (a zero POLYVAL key annihilates everything, say), so the solver's first,
+// typically all-zero, model may not exhibit natively a defect that generic inputs do.
+func (e *Engine) diversify(nc *Term) map[string]uint64 {
+	if e.solver == nil || len(e.inputs) == 0 || e.concreteMode() {
+		return nil
+	}
+	vars := e.inputs
+	h := uint64(88172645463325252)
+	next := func() uint64 { h ^= h << 13; h ^= h >> 7; h ^= h << 17; return h }
+	target := make([]*Term, len(vars))
+	for i, v := range vars {
+		r := next()
+		if v.W == 0 {
+			target[i] = nil // leave booleans / choices alone
+			continue
+		}
+		if v.W > 8 {
+			target[i] = nil // scalars (lengths, ids, choices) keep the solver's value
+			continue
+		}
+		target[i] = e.ts.Eq(v, e.ts.Const(v.W, r|1))
+	}
+	var fixed []*Term
+	budget := 40
+	e.solver.SetTimeout(2000)
+	var fix func(lo, hi int)
+	fix = func(lo, hi int) {
+		if budget <= 0 || lo >= hi {
+			return
+		}
+		var eqs []*Term
+		for i := lo; i < hi; i++ {
+			if target[i] != nil {
+				eqs = append(eqs, target[i])
+			}
+		}
+		if len(eqs) == 0 {
+			return
+		}
+		budget--
+		q := append(append([]*Term{nc}, fixed...), eqs...)
+		if e.solver.CheckWith(q...) == Sat {
+			fixed = append(fixed, eqs...)
+			return
+		}
+		if e.solver.dead {
+			e.reviveSolver()
+			budget = 0
+			return
+		}
+		if hi-lo == 1 {
+			return
+		}
+		mid := (lo + hi) / 2
+		fix(lo, mid)
+		fix(mid, hi)
+	}
+	fix(0, len(vars))
+	if len(fixed) == 0 {
+		return nil
+	}
+	r, m := e.checkModel(vars, append([]*Term{nc}, fixed...)...)
+	if r != Sat {
+		return nil
+	}
+	return m
+}
+
+const maxPerSite = 4
+
+func (e *Engine) sameSite(v Violation) int {
+	n := 0
+	for _, o := range e.res.Violations {
+		if o.Kind == v.Kind && o.Msg == v.Msg && o.Pos == v.Pos {
+			n++
+		}
+	}
+	return n
+}
+
+func (e *Engine) recordViolationAlt(kind, msg string, m map[string]uint64, nc *Term) {
+	n := len(e.res.Violations)
+	e.recordViolation(kind, msg, m)
+	if len(e.res.Violations) > n {
+		if alt := e.diversify(nc); alt != nil {
+			e.res.Violations[n].Alt = append(e.res.Violations[n].Alt, e.modelToAssignment(alt))
+		}
+	}
+}
+
 func (e *Engine) recordViolation(kind, msg string, m map[string]uint64) {
 	v := Violation{Harness: e.res.Harness, Kind: kind, Msg: msg, Pos: e.curPos(), Model: e.modelToAssignment(m), Stack: e.stackStrings()}
 	if os.Getenv("VERIF_DEBUGPC") != "" {
@@ -503,11 +642,9 @@ func (e *Engine) recordViolation(kind, msg string, m map[string]uint64) {
 			fmt.Fprintf(os.Stderr, "  dec[%d] isVal=%v choice=%d tried=%v pcLen=%d term=%s\n", i, d.isVal, d.choice, d.tried, d.pcLen, d.term.str(3))
 		}
 	}
-	// dedupe by (kind,msg,pos)
-	for _, o := range e.res.Violations {
-		if o.Kind == v.Kind && o.Msg == v.Msg && o.Pos == v.Pos {
-			return
-		}
+	// keep at most a few candidates per (kind,msg,pos): different paths give different inputs
+	if e.sameSite(v) >= maxPerSite {
+		return
 	}
 	e.res.Violations = append(e.res.Violations, v)
 }
@@ -539,7 +676,7 @@ func (e *Engine) assert(c *Term, msg string) {
 	var m map[string]uint64
 	if e.tag == "" {
 		e.solver.SetTimeout(e.cfg.QuickAssertTimeout)
-		r, m = e.solver.CheckWithModel(e.inputVars(), nc)
+		r, m = e.checkModel(e.inputVars(), nc)
 	}
 	switch r {
 	case Unsat:
@@ -549,7 +686,7 @@ func (e *Engine) assert(c *Term, msg string) {
 		}
 	case Sat:
 		st.Violated++
-		e.recordViolation("assert", msg, m)
+		e.recordViolationAlt("assert", msg, m, nc)
 		if len(e.res.Samples) < 6 {
 			e.res.Samples = append(e.res.Samples, fmt.Sprintf("VIOLATED %s: %s", msg, nc))
 		}
@@ -602,13 +739,7 @@ func (e *Engine) collect() {
 			e.inputs = j.vars
 			v := Violation{Harness: e.res.Harness, Kind: "assert", Msg: j.msg, Pos: j.pos, Model: e.modelToAssignment(j.model), Stack: j.stack}
 			e.inputs = saved
-			dup := false
-			for _, o := range e.res.Violations {
-				if o.Kind == v.Kind && o.Msg == v.Msg && o.Pos == v.Pos {
-					dup = true
-				}
-			}
-			if !dup {
+			if e.sameSite(v) < maxPerSite {
 				e.res.Violations = append(e.res.Violations, v)
 			}
 		default:
@@ -696,9 +827,10 @@ func (e *Engine) Explore(fn *ssa.Function) (res *HarnessResult) {
 		}
 		e.solver = s
 		defer func() {
+			s := e.solver
 			res.Queries += s.Queries
 			res.SolverTime += s.Time
-			if s.Errors > 0 {
+			if s.Errors > 0 && res.SolverRestarts == 0 {
 				res.Inconclusives = append(res.Inconclusives, Inconclusive{Harness: fn.Name(), Reason: fmt.Sprintf("%d solver error lines", s.Errors)})
 			}
 			s.Close()
@@ -755,7 +887,7 @@ func (e *Engine) runPath(fn *ssa.Function) {
 				if e.solver != nil {
 					e.solver.SetTimeout(e.cfg.AssertTimeout)
 					var r Result
-					r, m = e.solver.CheckWithModel(e.inputVars())
+					r, m = e.checkModel(e.inputVars())
 					if r == Unsat {
 						e.res.PathsPruned++
 						return
@@ -765,14 +897,12 @@ func (e *Engine) runPath(fn *ssa.Function) {
 						return
 					}
 				}
-				v := Violation{Harness: e.res.Harness, Kind: "panic", Msg: pe.msg, Pos: pe.pos, Model: e.modelToAssignment(m), Stack: e.stackStrings()}
-				dup := false
-				for _, o := range e.res.Violations {
-					if o.Kind == v.Kind && o.Msg == v.Msg && o.Pos == v.Pos {
-						dup = true
-					}
-				}
+				v := Violation{Harness: e.res.Harness, Kind: "panic", Msg: pe.msg, Pos: pe.pos, Model: e.modelToAssignment(m), Stack: pe.stack}
+				dup := e.sameSite(v) >= maxPerSite
 				if !dup {
+					if alt := e.diversify(e.ts.True); alt != nil {
+						v.Alt = append(v.Alt, e.modelToAssignment(alt))
+					}
 					e.res.Violations = append(e.res.Violations, v)
 				}
 			default:
